@@ -16,6 +16,8 @@ reset written as a walk over `.children` of the node it is given never resets th
 Round 8: the start a forward leaf finally gets is the search result itself (no post-processing); every path of a backward
 leaf takes its start from the fill / the task's end (diamond and overwrite cases of a local are split); keyword spelling of
 the day start in DirectCalendar.
+Round 10: a milestone's final start and end are the same term; a store that also runs for summaries after the roll-up
+overwrites it; roll-up cases guarded by a test that is constant after helper inlining (`None is not None`) are dead.
 Not decided: start <= end of a leaf from the numeric interaction of day fractions.
 """
 from __future__ import annotations
@@ -114,6 +116,11 @@ def check(ctx):
                "share of it that is already booked); a start post-processed afterwards (max with another bound, a shift) leaves that "
                "encoding while the end is still `last day + booked share`, so it can lie after the end", floor=1)
     ctx.guarded(o, lambda o: forward_leaf_start(ctx, o, PassShape(ctx, FWD)))
+
+    o = ctx.ob('milestone_start_equals_end', 'R8',
+               "a milestone has no duration: in the milestone region of both passes the start and the end that are finally stored are "
+               "the same term (a start moved afterwards leaves the end behind: start > end)", floor=2)
+    ctx.guarded(o, lambda o: milestone_point(ctx, o))
 
     o = ctx.ob('forward_leaf_end_after_start', 'R8',
                "forward: a computed leaf end is max(fill(.., start', ..), now()) with start' >= task.start, and the fill returns start' "
@@ -512,6 +519,26 @@ def _helper_total(ctx, ps, call, attr):
     return 'ok' if got == attr else ('bad', f"{h.name} adds up the children's `{got}`, not their {attr}")
 
 
+def _own_none_truth(t, p, value):
+    """truth of condition (t, p) when it is `X is None` / `X is not None` with X a literal None, a literal / constructor call that
+    cannot be None, or the very value being stored (the fallback guarding its own None-ness: True is the only case that stores
+    it); None when the condition is not of that kind"""
+    a, q = facts.norm_cond(t, p)
+    m = match("$x is None", a)
+    if not m:
+        return None
+    x = m['x']
+    if isinstance(x, ast.Constant):
+        is_none = x.value is None
+    elif isinstance(x, ast.Call) and isinstance(x.func, ast.Name) and x.func.id in ('datetime', 'timedelta', 'date'):
+        is_none = False
+    elif value is not None and same(x, value):
+        return True if not q else None        # `value is not None` on the path that stores the value
+    else:
+        return None
+    return is_none == q
+
+
 def rollup(ctx, o, ps: PassShape, attrs=None):
     S = ps.S
     want = {'start': 'min', 'end': 'max', 'estimate': 'sum', 'spent': 'sum'}
@@ -550,12 +577,32 @@ def rollup(ctx, o, ps: PassShape, attrs=None):
                 continue
             o.refute(ps.f, ps.f.node, f'summary {attr}', f"summary {attr} is never computed from the children")
             continue
+        # a store that also runs for summaries (its path condition does not say leaf) and can follow the roll-up overwrites it
+        for st_u, tgt_u, val_u, reg_u in ps.stores(attr):
+            if reg_u['milestone'] is not False or reg_u['leaf'] is not None:
+                continue
+            un = ps.cfg.node_of(st_u)
+            if un is None or not any(ps.cfg.node_of(x[0]) is not None and ps.cfg.node_of(x[0]) is not un and ps.cfg.can_reach(ps.cfg.node_of(x[0]), un)
+                                     for x in sts):
+                continue
+            vu = ps.ex.expand(val_u, un)
+            if isinstance(vu, ast.Call) and isinstance(vu.func, ast.Name) and vu.func.id == op and len(vu.args) == 1 and \
+                    _children_comp(ps, vu.args[0], attr, un) == 'ok':
+                continue
+            o.refute(ps.f, st_u, st_u, f"summary {attr}: after the roll-up `{src(st_u)[:70]}` runs for summary tasks too and replaces the {op} over "
+                                       f"the children (the value it writes depends on the path the task was reached by)")
         for st, tgt, val, reg in sts:
             stn = ps.cfg.node_of(st)
             if not ps.cfg.dominates(chn, stn):
                 o.refute(ps.f, st, st, f"summary {attr} is computed before the children were scheduled")
                 continue
             extra = [(t, p) for t, p in reg['other']]
+            # tests decided by their own text (`None is not None`, `datetime(1970, 1, 1) is not None` - an optional default bound to a
+            # constant by helper inlining): a false one makes this case of the stored value dead, a true one says nothing
+            truths = [_own_none_truth(t, p, val) for t, p in extra]
+            if any(tv is False for tv in truths):
+                continue
+            extra = [c_ for c_, tv in zip(extra, truths) if tv is None]
             # fallback for childless-values: allowed only under an emptiness test of the collected list
             emp = [sched.is_emptiness(t, p) for t, p in extra]
             if extra and all(e is not None and e[1] for e in emp):
@@ -776,6 +823,41 @@ def per_day_lookup(ctx, o):
                               f"day's capacity (asked with midnight) differ for one and the same day and the start can pass the end")
         else:
             o.undecided(f, n, n, f"lookup key `{src(kx)[:50]}` is neither the start of the day of `{date_p}` nor `{date_p}` itself")
+
+
+def milestone_point(ctx, o):
+    for S in BOTH:
+        ps = PassShape(ctx, S)
+        final = {}
+        for attr in ('start', 'end'):
+            sts = [x for x in ps.stores(attr) if x[3]['milestone'] is True]
+            last = [x for x in sts if not any(y is not x and ps.cfg.node_of(y[0]) is not None and ps.cfg.node_of(x[0]) is not None and
+                                              ps.cfg.node_of(y[0]) is not ps.cfg.node_of(x[0]) and
+                                              ps.cfg.can_reach(ps.cfg.node_of(x[0]), ps.cfg.node_of(y[0])) for y in sts)]
+            final[attr] = last
+        if not final['start'] or not final['end']:
+            o.undecided(ps.f, ps.f.node, 'milestone dates', "no store to start / end recognised in the milestone region")
+            continue
+        if len(final['start']) != 1 or len(final['end']) != 1:
+            o.undecided(ps.f, final['start'][0][0], 'milestone dates', "several final stores of a milestone date: not compared")
+            continue
+        (ss, _, sv, sreg), (es, _, ev, ereg) = final['start'][0], final['end'][0]
+        if ss is es:
+            o.site(ps.f, ss, "milestone start = end (one chained assignment)")
+            continue
+        sx, exx = ps.ex.expand(sv, ps.cfg.node_of(ss)), ps.ex.expand(ev, ps.cfg.node_of(es))
+        if same(sx, exx) and not (sreg['other'] or ereg['other'] or sreg['is_none'] or ereg['is_none']):
+            o.site(ps.f, ss, "milestone start and end are the same term")
+        elif any(match(f"{ps.task}.end", x) or same(x, exx) for x in ast.walk(sx)) and not same(sx, exx):
+            o.refute(ps.f, ss, ss, f"the start of a milestone is finally `{src(sx)[:70]}` while its end stays `{src(exx)[:50]}`: the start can "
+                                   f"lie after the end")
+        elif any(match(f"{ps.task}.start", x) or same(x, sx) for x in ast.walk(exx)) and not same(sx, exx):
+            o.refute(ps.f, es, es, f"the end of a milestone is finally `{src(exx)[:70]}` while its start stays `{src(sx)[:50]}`")
+        elif same(sx, exx):
+            o.refute(ps.f, ss, ss, f"one of the milestone dates is stored only under `{facts.cond_texts(sreg['other'] or ereg['other'])}`: on the "
+                                   f"other path start and end differ") if (sreg['other'] or ereg['other']) else o.site(ps.f, ss, "milestone start = end")
+        else:
+            o.undecided(ps.f, ss, ss, f"milestone start `{src(sx)[:50]}` and end `{src(exx)[:50]}` are different terms the rule cannot relate")
 
 
 def forward_leaf_start(ctx, o, ps: PassShape):
